@@ -54,7 +54,7 @@ def work(args):
             for k, seq in enumerate(itertools.product(range(len(alpha)), repeat=spec["length"])):
                 if k % nsh != shard:
                     continue
-                s = run_session(cfg, [alpha[j] for j in seq], k)
+                s = run_session(cfg, [list(c) for c in spec.get("prefix", [])] + [alpha[j] for j in seq], k)
                 f.write(json.dumps(s, separators=(",", ":")) + "\n")
                 n += 1; steps += len(s["steps"])
         else:
